@@ -116,6 +116,7 @@ PROPS['C12'] = dict(
                             thorough=[sim('Gen_Builder', 'Gen_Builder.cfg', 8000, 16, 'bld', shards=8)]))],
     mc=dict(quick=[mc('MC_Builder', 'MC_Builder.cfg', expect_min_distinct=100000), mc('MC_BitmapBuild', 'MC_BitmapBuild_q.cfg', expect_min_distinct=10000)],
             thorough=[mc('MC_Builder', 'MC_Builder_t.cfg', expect_min_distinct=100000), mc('MC_BitmapBuild', 'MC_BitmapBuild.cfg', expect_min_distinct=100000)]),
+    tlaps=dict(quick=[dict(module='BuilderProof')], thorough=[dict(module='BuilderProof', refute='BuilderProofBad')]),
     need_kinds=['of', 'ofmany', 'toarray', 'bld'],
     apalache=dict(quick=[dict(module='BuilderInd', cinit='CInitQ', runs=[('Init', 'IndInv', 0), ('IndInit', 'IndInv', 1)], refute=[('IndInit', 'BadNeverGrows', 1)])],
                   thorough=[dict(module='BuilderInd', cinit='CInitT', runs=[('Init', 'IndInv', 0), ('IndInit', 'IndInv', 1)], refute=[('IndInit', 'BadNeverGrows', 1)])]),
